@@ -10,7 +10,8 @@ class TextEnv(EF.Predicates):
     """Predicates.eval with an environment that may also bind whole rendered sub-expressions"""
 
     def eval(self, e, env, universe):
-        t = F.src(F.strip(e)) if e['k'] not in ('IntegerLiteral',) else None
+        # cast nodes go to the base evaluator (it applies narrowing conversions and comes back here for the operand)
+        t = F.src(e) if e['k'] not in ('IntegerLiteral',) + tuple(F.CASTS) else None
         if t is not None and t in env:
             return env[t]
         return super().eval(e, env, universe)
